@@ -4,10 +4,10 @@ flow. That the transformed state equals the dense image is not decided."""
 import ast
 import re
 
-from ..core import (AnalysisError, split_assign, body_nodes, call_name, dotted, in_loop, is_self_attr, key_text,
+from ..core import (AnalysisError, bound_args, split_assign, body_nodes, call_name, dotted, in_loop, is_self_attr, key_text,
                     kwarg, local_defs, names_in, params, parent, stmts_of, unparse)
 from ..normal import inline_temps
-from ..pattern import P, find, guards_of, pmatch
+from ..pattern import P, find, guards_of, iteration_source, pmatch
 from ..flow import check_errflow
 
 MPS = 'tenpy/networks/mps.py'
@@ -372,6 +372,71 @@ def check_swap_sites(prog, rep):
                       + why, g.lineno)
 
 
+FORMS = {'A': (1, 0), 'B': (0, 1), 'C': (0.5, 0.5), 'G': (0, 0), 'Th': (1, 1)}
+
+
+def check_bond_coverage(prog, rep):
+    """A function that collects site tensors with get_B and hands them over as a complete state
+    with trivial singular values (`form=None`) must include every bond's singular values exactly
+    once: exponent 1 on the left of the first site, nuR(i) + nuL(i+1) = 1 in between, 1 on the
+    right of the last site. With all later sites in form B (0, 1) this means: the first site is
+    requested as 'Th' and no other site carries a left exponent."""
+    m = prog.module(MPS)
+    n = nf_ = 0
+    for q, f in m.functions.items():
+        cons = [c for c in body_nodes(f) if isinstance(c, ast.Call) and
+                unparse(c.func) in ('self.__class__', 'cls', 'MPS') and
+                isinstance(kwarg(c, 'form'), ast.Constant) and kwarg(c, 'form').value is None]
+        gbs = [c for c in body_nodes(f) if isinstance(c, ast.Call) and
+               isinstance(c.func, ast.Attribute) and c.func.attr == 'get_B' and c.args]
+        if not cons or not gbs:
+            continue
+        nf_ += 1
+        getb = m.func('MPS.get_B')
+        for c in gbs:
+            b = bound_args(c, getb)
+            fm = b.get('form')
+            if fm is None:
+                form = 'B'
+            elif isinstance(fm, ast.Constant) and fm.value in FORMS:
+                form = fm.value
+            else:
+                continue
+            idx = b.get('i')
+            may_be_first = only_first = False
+            if isinstance(idx, ast.Constant):
+                may_be_first = only_first = idx.value == 0
+            elif isinstance(idx, ast.Name):
+                src = iteration_source(f, idx.id, at=c)
+                r = pmatch('range($$a, $$b)', src) if src is not None else None
+                r1 = pmatch('range($$b)', src) if src is not None else None
+                if r1:
+                    may_be_first = True
+                elif r:
+                    may_be_first = unparse(r['$$a']) == '0'
+                else:
+                    continue
+            else:
+                continue        # L - 1 etc.: an inner / last site
+            nuL, nuR = FORMS[form]
+            n += 1
+            rep.instance('MPS-bond-coverage', {'function': q, 'call': unparse(c),
+                                               'may_be_first_site': may_be_first, 'form': form})
+            bad = None
+            if may_be_first and nuL != 1:
+                bad = 'the first site is taken in form %r: the singular values on its left bond ' \
+                    'are dropped (non-trivial for segment states)' % form
+            elif not may_be_first and nuL != 0:
+                bad = 'an inner site is taken in form %r: its left bond is counted twice' % form
+            elif nuR != 1 and not only_first and form != 'Th':
+                bad = 'form %r leaves out the singular values on the right bond' % form
+            if bad:
+                rep.violation('MPS-bond-coverage', m, q, 'coverage:' + unparse(c)[:40],
+                              '`%s` feeds a state built with form=None (singular values all 1): '
+                              '%s' % (unparse(c), bad), c.lineno)
+    return nf_
+
+
 def _stmt_of(n):
     while not isinstance(n, ast.stmt):
         n = parent(n)
@@ -457,6 +522,7 @@ def run(prog, rep, tier):
     rep.rule('MPS-coupled-*', 'functions replacing the per-site lists (sites, form, _B, _S) replace '
              'all of them and never evaluate an accessor that reads a list already replaced by its '
              're-indexed version')
+    rep.rule('MPS-bond-coverage', 'tensors collected for a form=None state cover every bond once')
     rep.rule('MPS-form-*', 'tensors rebuilt through get_B(form=F) need self.form = F (or '
              'form=None); side pairing SL/vL/nuL, SR/vR/nuR; table of canonical forms')
     rep.rule('MPS-bond-reindex', 'direct re-indexing of the bond list depends on finite/infinite')
@@ -468,6 +534,8 @@ def run(prog, rep, tier):
     check_form_flow(prog, rep)
     check_bond_lists(prog, rep)
     check_swap_sites(prog, rep)
+    if check_bond_coverage(prog, rep) < 1:
+        raise AnalysisError('MPS-bond-coverage: MPS.add not found')
     check_sticky_flags(prog, rep)
     check_errflow_c09(prog, rep)
     rep.floor('MPS-coupled-order', 8)
